@@ -1,0 +1,71 @@
+//go:build verif
+// +build verif
+
+package tensor
+
+// Pool-event hook for verification builds (guard: verif). It reports returns of int slices
+// to the pools: the pointer of the backing array, its capacity, and whether the same array is
+// already in the pool-side registry (a double return). Add-only; without the tag the hook
+// functions in perf_noverif.go are empty and inlined away.
+
+import (
+	"sync"
+	"unsafe"
+)
+
+// VerifPoolEvent describes one pool event.
+type VerifPoolEvent struct {
+	Kind   string // "borrow-ints" | "return-ints"
+	Ptr    uintptr
+	Cap    int
+	Double bool // return of an array that is already recorded as pooled
+}
+
+var (
+	verifMu     sync.Mutex
+	verifPooled = map[uintptr]bool{}
+	verifEvents []VerifPoolEvent
+	verifOn     bool
+)
+
+// VerifPoolTrace switches event recording on or off and clears the log.
+func VerifPoolTrace(on bool) {
+	verifMu.Lock()
+	verifOn = on
+	verifEvents = nil
+	verifPooled = map[uintptr]bool{}
+	verifMu.Unlock()
+}
+
+// VerifPoolEvents returns the events recorded since tracing was switched on.
+func VerifPoolEvents() []VerifPoolEvent {
+	verifMu.Lock()
+	defer verifMu.Unlock()
+	return append([]VerifPoolEvent(nil), verifEvents...)
+}
+
+func verifHookReturnInts(is []int) {
+	if cap(is) == 0 {
+		return
+	}
+	verifMu.Lock()
+	if verifOn {
+		p := uintptr(unsafe.Pointer(&is[:1][0]))
+		verifEvents = append(verifEvents, VerifPoolEvent{"return-ints", p, cap(is), verifPooled[p]})
+		verifPooled[p] = true
+	}
+	verifMu.Unlock()
+}
+
+func verifHookBorrowInts(is []int) {
+	if cap(is) == 0 {
+		return
+	}
+	verifMu.Lock()
+	if verifOn {
+		p := uintptr(unsafe.Pointer(&is[:1][0]))
+		verifEvents = append(verifEvents, VerifPoolEvent{"borrow-ints", p, cap(is), false})
+		delete(verifPooled, p)
+	}
+	verifMu.Unlock()
+}
